@@ -284,8 +284,13 @@ func runWriterOps(c *WCase, ops []Op, startEpoch int, failing bool, emit func(WE
 			// overwritten right after
 			tmp := append([]byte{}, dict...)
 			u, cerr = newWriter(set, sink, tmp)
+			// ... with the payload that is about to be written: a Writer that reads the slice only
+			// later would find the payload in its "dictionary" and refer to it
 			for i := range tmp {
 				tmp[i] = byte(i * 7)
+				if len(data) > 0 {
+					tmp[len(tmp)-1-i] = data[(len(data)-1-i%len(data)+len(data))%len(data)]
+				}
 			}
 			return
 		}
